@@ -19,6 +19,20 @@ type c19Case struct {
 	Hy   []bool      `json:"hy,omitempty"`
 	Fail int         `json:"fail"`           // 0 none; n > 0: a failing object after n newlines at the end
 	Prev *[4]string  `json:"prev,omitempty"` // an earlier Delims call on the same engine (the later call decides)
+	Inc  bool        `json:"inc,omitempty"`  // the template is registered with ParseTemplateAndCache and rendered through an include tag
+}
+
+// c19ViaInclude registers src under a name and renders a template that includes it.
+func c19ViaInclude(eng *liquid.Engine, src string, d hx.Delims, b map[string]any) (o hx.Outcome) {
+	var perr liquid.SourceError
+	if pi := hx.Guard(func() { _, perr = eng.ParseTemplateAndCache([]byte(src), "c19inc.html", 1) }); pi != nil {
+		return hx.Outcome{Panic: pi}
+	}
+	if perr != nil {
+		return hx.Outcome{Err: perr, ParseErr: true}
+	}
+	top := hx.Spell([]hx.Tok{{Kind: hx.TText, Body: "A"}, {Kind: hx.TTag, Body: "include 'c19inc.html'", Name: "include"}, {Kind: hx.TText, Body: "Z"}}, d, nil)
+	return hx.RenderWith(eng, top, b)
 }
 
 var c19Defaults = [4]string{"{{", "}}", "{%", "%}"}
@@ -103,8 +117,19 @@ var c19Equiv = hx.Define("c19.equivalence", func(c *c19Case, s *hx.Sub) *hx.Viol
 	}); pi != nil {
 		return hx.V("panic@"+pi.Site, "Delims(%q): %v", c.D, pi)
 	}
-	oc = hx.RenderWith(eng, custom, b.Realise())
-	od := hx.RenderWith(c19Default, deflt, b.Realise())
+	var od hx.Outcome
+	if c.Inc {
+		if strings.ContainsAny("'", chars) {
+			s.Exclude()
+			return nil
+		}
+		oc = c19ViaInclude(eng, custom, eff, b.Realise())
+		od = c19ViaInclude(c19Default, deflt, hx.DefaultDelims, b.Realise())
+		s.Class("through-include")
+	} else {
+		oc = hx.RenderWith(eng, custom, b.Realise())
+		od = hx.RenderWith(c19Default, deflt, b.Realise())
+	}
 	if oc.Panic != nil {
 		return hx.V("panic@"+oc.Panic.Site, "Delims(%q) on %q: %v", c.D, custom, oc.Panic)
 	}
@@ -188,7 +213,7 @@ func TestC19(t *testing.T) {
 
 	prof := hx.FullProfile()
 	prof.Tablerow, prof.PlainPunct, prof.MaxNodes, prof.WSText = true, true, 8, true
-	eq := c19Equiv.On(col, "exhaustive over the quadruples of strings of length 1..2 over < > [ ] \\ ^ (four distinct strings none containing another; all length-1 quadruples in both tiers, all length <= 2 in the thorough tier, a seeded sample in quick), random quadruples of length 1..4 over the ASCII punctuation that template contents do not need, each subset of positions left empty (= default); x rapid-generated templates (objects, assign, if/unless/case, for/tablerow, cycle, capture, raw and comment blocks, whitespace-rich text) re-spelled with the quadruple, with random whitespace-control hyphens and optionally one failing object on a later line. Metamorphic oracle: the custom engine on the re-spelled template = the default engine on the default spelling (same bytes, or both fail with the same LineNumber). Templates whose contents contain a delimiter character are excluded and counted. Non-trivial: non-default quadruple and the template has a hyphen or a raw/comment block; distinct by (quadruple, template)", false)
+	eq := c19Equiv.On(col, "exhaustive over the quadruples of strings of length 1..2 over < > [ ] \\ ^ (four distinct strings none containing another; all length-1 quadruples in both tiers, all length <= 2 in the thorough tier, a seeded sample in quick), random quadruples of length 1..4 over the ASCII punctuation that template contents do not need, each subset of positions left empty (= default); x rapid-generated templates (objects, assign, if/unless/case, for/tablerow, cycle, capture, raw and comment blocks, whitespace-rich text) re-spelled with the quadruple, with random whitespace-control hyphens and optionally one failing object on a later line; a fifth of the random cases register the template with ParseTemplateAndCache and render it through an include tag. Metamorphic oracle: the custom engine on the re-spelled template = the default engine on the default spelling (same bytes, or both fail with the same LineNumber). Templates whose contents contain a delimiter character are excluded and counted. Non-trivial: non-default quadruple and the template has a hyphen or a raw/comment block; distinct by (quadruple, template)", false)
 
 	// template pool for the enumerations (drawn once per shard through rapid so that it is reproducible)
 	var pool []*c19Case
@@ -305,6 +330,7 @@ func TestC19(t *testing.T) {
 			prev := genQuad(punct).Draw(t, "previous-quadruple")
 			c.Prev = &prev
 		}
+		c.Inc = rapid.IntRange(0, 4).Draw(t, "through-include") == 0
 		if v := eq.Run(c); v != nil {
 			t.Fatalf("%s", v.Message)
 		}
